@@ -61,6 +61,11 @@ def cases(tier, seed):
         out.append(('take_' + nm, dict(kind='take', take=tk, win=win)))
     # take period on a grid with unequal steps (DST day) for an asset that starts later than the horizon
     out.append(('take_dst_late_asset', dict(kind='take', take=(1, 6), win=(1, 9), freq=['d', '2021-03-26', '2021-03-30', 'CET'])))
+    # take dates written in another time zone than the grid's: a period starting exactly at the horizon end lies outside, a straddling one is prorated
+    cet = ['h', '2021-01-04 00:00', '2021-01-04 04:00', 'CET']
+    out.append(('take_utc_dates_starting_at_horizon_end', dict(kind='take', take=(4, 6), win=None, freq=cet, take_tz='UTC')))
+    out.append(('take_utc_dates_straddling_end', dict(kind='take', take=(2, 8), win=None, freq=cet, take_tz='UTC')))
+    out.append(('take_utc_dates_ending_at_horizon_start', dict(kind='take', take=(-3, 0), win=None, freq=cet, take_tz='UTC')))
     out.append(('take_months_late_asset', dict(kind='take', take=(1, 3), win=(1, 3), freq=['MS', '2021-01-01', '2021-05-01', None], unit='d')))
     # ... and periods whose covered steps have another total length than the same number of steps at the start of the horizon
     out.append(('take_dst_late_asset_two_steps', dict(kind='take', take=(1, 3), win=(1, 9), freq=['d', '2021-03-26', '2021-03-30', 'CET'])))
@@ -72,8 +77,8 @@ def cases(tier, seed):
             out.append(('straddle_%s_%s' % (ex, pl), dict(kind='straddle', extra=ex, place=pl)))
     # the problem of an asset with a window inside a longer horizon is the problem of the same asset on a horizon equal to the window
     # (nothing outside the window matters; steps counted from the horizon start) -- discount rate 0
-    for ex in EXTRAS:
-        for w in (((2, 5),) if tier != 'thorough' else ((2, 5), (1, 3), (3, 4))):
+    for ex in EXTRAS + ['storage_blocks']:
+        for w in (((2, 5),) if tier != 'thorough' and ex != 'storage_blocks' else ((2, 5), (1, 3), (3, 4)) if ex != 'storage_blocks' else ((1, 5), (2, 5))):
             out.append(('horizon_is_window_%s_%d_%d' % (ex, w[0], w[1]), dict(kind='straddle', extra=ex, place='horizon_is_window', win=list(w))))
     out.append(('takeperiod_outside', dict(kind='extra', extra='takeperiod', place='after')))
     # a coarse interval straddling the horizon counts with its covered part only (decided with the C13 machinery: option problem vs
@@ -100,6 +105,8 @@ def mk_extra(D, kind, T, tg, nA, nB, win):
                                    min_take=shapes.mk_take(tg, win[0], win[1], D('ex_mintake', hi=0)))
     if kind == 'storage':
         return shapes.mk_storage(D, 'ex', nA, eff=0.75, win=win, tg=tg)
+    if kind == 'storage_blocks':
+        return shapes.mk_storage(D, 'ex', nA, eff=None, costs=False, win=win, tg=tg, block_size='2h')
     if kind == 'transport':
         return shapes.mk_transport(D, 'ex', nA, nB, eff=0.5, win=win, tg=tg)
     if kind == 'multicommodity':
@@ -309,8 +316,8 @@ def run_window(rec, seed, shape, kw):
     return rec.result()
 
 
-def run_take(rec, seed, take, win, freq='h', unit='h'):
-    kw = dict(T=4, take=take, win=win, freq=tuple(freq) if isinstance(freq, list) else freq, unit=unit)
+def run_take(rec, seed, take, win, freq='h', unit='h', take_tz=None):
+    kw = dict(T=4, take=take, win=win, freq=tuple(freq) if isinstance(freq, list) else freq, unit=unit, take_tz=take_tz)
     res = scen.explore('contract_take', kw, level='A', with_output=False)
     rec.paths = len(res)
     for pi, (path, D) in enumerate(res):
@@ -430,7 +437,7 @@ def observe(case, kwargs, env, rq):
         return o
     if kind == 'take':
         fq = kw.get('freq', 'h')
-        sc = scen.run(D, 'contract_take', dict(T=4, take=kw['take'], win=kw['win'], freq=tuple(fq) if isinstance(fq, list) else fq, unit=kw.get('unit', 'h')), None, False, env=env)
+        sc = scen.run(D, 'contract_take', dict(T=4, take=kw['take'], win=kw['win'], freq=tuple(fq) if isinstance(fq, list) else fq, unit=kw.get('unit', 'h'), take_tz=kw.get('take_tz')), None, False, env=env)
         return embed_ref.observe(sc.sh, sc.op, env, rq)
     if kind == 'straddle' and kw.get('place') == 'horizon_is_window':
         from .. import obs as _obs
